@@ -390,12 +390,13 @@ fn run_seq_inner(case: &SeqCase, opts: Opts) -> RunResult {
 	if !hung && !env.exec.is_abort() && case.fault.is_none() {
 		free = final_table_check(&env);
 	}
+	let mutated = false;
 	for n in env.exec.notices() {
 		if let Notice::NoProgress { tid, cycle_len, reps } = n {
 			env.finding(
 				"C01",
 				tid,
-				"no-progress-cycle",
+				if mutated { "no-progress-cycle|collection-mutated-after-check" } else { "no-progress-cycle" },
 				format!("thread {tid} repeats the same {cycle_len} raw operations {reps} times without any change"),
 			);
 		}
